@@ -1017,6 +1017,17 @@ impl Family for CodecWFamily {
                 }
             }
         }
+        // the same shape long enough for the direct C10 streaming oracle (bound ~3.1 MiB): 60 anchored
+        // pieces of 70000 bytes, all FE/FD (so each starts with an invalid header and decodes to nothing;
+        // the decoder is fresh again after each error), the consumer draining after every call
+        for drain in ["drain_all", "drain_slices 1"] {
+            let mut ops = vec!["dec_new prod".to_string()];
+            for r in 0..60 {
+                ops.push(format!("feed a gen:70000:{}:256", 77 + r));
+                ops.push(drain.to_string());
+            }
+            cases.push(ops);
+        }
         cases
     }
 
